@@ -320,25 +320,111 @@ Fixpoint all_some {A} (l : list (option A)) : option (list A) :=
   | None :: _ => None
   end.
 
+(* the number an index attribute denotes (xs:unsignedShort: decimal digits, leading zeros allowed).
+   [raw_value]: the attribute value as a resolver holds it; [index_value]: as a metadata document spells it
+   (white space around it collapsed) *)
+Definition is_digit (c : ascii) : bool := let n := code c in ((48 <=? n) && (n <=? 57))%nat.
+Fixpoint digits_val (acc : nat) (s : string) : option nat :=
+  match s with
+  | EmptyString => Some acc
+  | String c r => if is_digit c then digits_val (10 * acc + (code c - 48)) r else None
+  end.
+Definition raw_value (s : string) : option nat := if is_empty s then None else digits_val 0 s.
+Definition denotes_raw (n : nat) (s : string) : bool :=
+  match raw_value s with Some v => (v =? n)%nat | None => false end.
+Definition index_value (s : string) : option nat := raw_value (strip_ws s).
+Definition denotes (n : nat) (s : string) : bool := denotes_raw n (strip_ws s).
+
+(* the locations of the services whose index is n *)
+Definition services_raw (n : nat) (svcs : list service) : list string :=
+  map snd (filter (fun sv => denotes_raw n (fst sv)) svcs).
+Definition services_for (n : nat) (svcs : list service) : list string :=
+  map snd (filter (fun sv => denotes n (fst sv)) svcs).
+
 (* dest : result of resolving the artifact at a party whose map knows the issuer.
    The artifact resolves to the issuer's entity and to the service whose index is the one the
-   artifact was created with (None when the issuer has no such service). *)
+   artifact was created with (None when the issuer has no such service); the index attribute is a number
+   ("01" is index 1). *)
 Definition art_spec (x : art_in) (dest : ares) : Prop :=
   forall descs svcs,
     assoc (a_sid x) (a_sm x) = Some (Some descs) -> all_some descs = Some svcs ->
-    NoDup (map fst (concat svcs)) ->
-    dest = AOk (assoc (decimal (a_idx x)) (concat svcs)).
+    length (services_raw (a_idx x) (concat svcs)) <= 1 ->
+    dest = AOk (hd_error (services_raw (a_idx x) (concat svcs))).
 
 Definition art_spec_b (x : art_in) (dest : ares) : bool :=
   match assoc (a_sid x) (a_sm x) with
   | Some (Some descs) =>
       match all_some descs with
       | Some svcs =>
-          negb (nodup_b (map fst (concat svcs)))
-          || ares_eqb dest (AOk (assoc (decimal (a_idx x)) (concat svcs)))
+          negb (length (services_raw (a_idx x) (concat svcs)) <=? 1)%nat
+          || ares_eqb dest (AOk (hd_error (services_raw (a_idx x) (concat svcs))))
       | None => true
       end
   | _ => true
+  end.
+
+(* ================================================================== artifacts through the resolver's metadata *)
+(* "an artifact resolves to the entity that issued it and to the endpoint index it was created with", read
+   against what the metadata DOCUMENTS say (the federation the resolving party was configured with, or has
+   re-loaded most recently), not against a table the library derived from them. *)
+
+Record fres_in := {
+  f_fed : federation;       (* the metadata the resolving party holds now *)
+  f_eid : string;           (* issuer entityID *)
+  f_idx : nat;              (* endpoint index the artifact was created with *)
+  f_role : role             (* descriptor the resolving party asks for *)
+}.
+
+Definition fed_ents (x : fres_in) : list fent := concat (f_fed x).
+
+(* every descriptor of the role publishes at least one ArtifactResolutionService *)
+Definition publishes (r : role) (e : fent) : bool :=
+  negb (match role_descs r e with [] => true | _ => false end)
+  && forallb (fun d => negb (match d with [] => true | _ => false end)) (role_descs r e).
+
+(* about the issuer's own record e:
+   (a) whatever location comes out is one of the ISSUER's services of that role with that index;
+   (b) if the issuer publishes the service in that role and at most one service carries the index, exactly
+       that one comes out (none: no destination). *)
+Definition artfed_clause (x : fres_in) (e : fent) (dest : ares) : Prop :=
+  let cands := services_for (f_idx x) (concat (role_descs (f_role x) e)) in
+  (forall l, dest = AOk (Some l) -> In l cands)
+  /\ (publishes (f_role x) e = true -> length cands <= 1 -> dest = AOk (hd_error cands)).
+
+Definition artfed_spec (x : fres_in) (dest : ares) : Prop :=
+  NoDup (map fe_eid (fed_ents x)) ->                    (* entityIDs identify the entities of the federation *)
+  (forall e, In e (fed_ents x) -> fe_eid e = f_eid x -> artfed_clause x e dest)
+  /\ (~ In (f_eid x) (map fe_eid (fed_ents x)) -> forall l, dest <> AOk (Some l)).   (* unknown issuer: nobody's endpoint *)
+
+Definition artfed_clause_b (x : fres_in) (e : fent) (dest : ares) : bool :=
+  let cands := services_for (f_idx x) (concat (role_descs (f_role x) e)) in
+  match dest with AOk (Some l) => mem l cands | _ => true end
+  && (negb (publishes (f_role x) e) || negb (length cands <=? 1)%nat || ares_eqb dest (AOk (hd_error cands))).
+
+Definition artfed_spec_b (x : fres_in) (dest : ares) : bool :=
+  negb (nodup_b (map fe_eid (fed_ents x)))
+  || (forallb (fun e => negb (String.eqb (fe_eid e) (f_eid x)) || artfed_clause_b x e dest) (fed_ents x)
+      && (mem (f_eid x) (map fe_eid (fed_ents x))
+          || match dest with AOk (Some _) => false | _ => true end)).
+
+(* class 6 (Entity.artifact2destination before fbf0c2eb compared the index attribute as TEXT with str(int)): a
+   service of the issuer in the asked role carries the index in a non-canonical spelling ("01", "007").
+   Repaired: no theorem is guarded by [spelling_ok] any more; Corr.cls uses it to recognise a regression. *)
+Definition canon_for (n : nat) (svcs : list service) : bool :=
+  forallb (fun sv => negb (denotes n (fst sv)) || String.eqb (strip_ws (fst sv)) (decimal n)) svcs.
+Definition spelling_ok (x : fres_in) : bool :=
+  forallb (fun e => negb (String.eqb (fe_eid e) (f_eid x))
+                    || canon_for (f_idx x) (concat (role_descs (f_role x) e))) (fed_ents x).
+
+(* outs: the results of the OResolve operations, in order; each one is judged against the federation
+   loaded most recently before it *)
+Fixpoint seq_spec (cur : federation) (ops : list fop) (outs : list ares) : Prop :=
+  match ops, outs with
+  | [], [] => True
+  | OLoad fed :: r, _ => seq_spec fed r outs
+  | OResolve eid _ idx ro :: r, d :: outs' =>
+      artfed_spec {| f_fed := cur; f_eid := eid; f_idx := idx; f_role := ro |} d /\ seq_spec cur r outs'
+  | _, _ => False
   end.
 
 (* ================================================================== guards and finding classes *)
